@@ -453,6 +453,9 @@ fn server_case(case: &mut Case) -> CaseResult {
 }
 
 fn server_cli_case(case: &mut Case, base: &std::path::Path) -> CaseResult {
+    // how the command is started (working directory, --config-file spelling): drawn first so that it varies
+    let cli_style = case.ch.below(crate::cli::CLI_STYLES);
+    case.label(&format!("cli-style-{cli_style}"));
     use crate::cli::*;
     use crate::projects::*;
     let mut po = ProjectOpts::default();
@@ -516,7 +519,7 @@ fn server_cli_case(case: &mut Case, base: &std::path::Path) -> CaseResult {
         proj.write(&out_rel, &format!("// generated by nitrogql\nexport const schema = `{}`;\n", "type Old { stale: Int }\n".repeat(2000)));
         case.label("output-overwritten");
     }
-    let run = run_cli(&proj.path(&gp.layout.root), &["generate", "--output-format", "json"]);
+    let run = crate::cli::run_cli_styled(&proj.path(&gp.layout.root), &["generate", "--output-format", "json"], cli_style);
     let detail = json!({"config": gp.config, "files": gp.schema_files.iter().map(|(p, t)| json!({"path": p, "text": t})).collect::<Vec<_>>(), "stderr": strip_ansi(&run.stderr), "stdout": run.stdout, "output_existed_before": stale});
     let js = proj.read(&out_rel);
     proj.remove();
